@@ -183,6 +183,33 @@ def run(ck, rng):
             long = b"- " + b"x" * (n - 2)
             lines = ([long] + lines) if pos == "first" else (lines + [long])
             scen.append(("out-d", b"\n".join(lines) + b"\n", [], [], [(b"tgt", "d")], "0", None, "long"))
+    # one root whose rendering is far larger than any buffer (> 64 KiB) among small ones, written to a slow sink: the
+    # blocks must stay contiguous
+    for _ in range(3 if ck.tier == "quick" else 40):
+        items = []
+        nsmall = rng.choice([200, 400])
+        big = rng.randrange(nsmall // 4, 3 * nsmall // 4)
+        for r in range(nsmall):
+            if r == big:
+                items.append((1, b"rootHUGE"))
+                for c in range(1500):
+                    items.append((2, b"child-%04d-" % c + b"x" * 50))
+            items += [(1, b"root%04d" % r), (2, b"a"), (3, b"b"), (2, b"c")]
+        scen.append(("out-d", spell(items, plain_spelling(items)), items, [], [(b"tgt", "d")], "0", None, "huge"))
+    # verify where a node with children is a SYMBOLIC LINK to a directory that has those children: the directory walk does
+    # not follow links, so the children are missing -- in both modes, strict or not
+    for _ in range(12 if ck.tier == "quick" else 150):
+        nroots = rng.randint(2, 6)
+        items, pre = [], [(b"tgt", "d")]
+        linked = rng.randrange(nroots)
+        for r in range(nroots):
+            items += [(1, b"r%d" % r), (2, b"a"), (3, b"b"), (2, b"c")]
+            pre += [(b"tgt/r%d" % r, "d"), (b"tgt/r%d/c" % r, "d")]
+            if r == linked:
+                pre += [(b"tgt/real%d/b" % r, "d"), (b"tgt/r%d/a" % r, "l" + hx(b"../real%d" % r))]
+            else:
+                pre += [(b"tgt/r%d/a/b" % r, "d")]
+        scen.append(("verify", spell(items, plain_spelling(items)), items, [], pre, rng.choice("01"), None, "symlink"))
     # rows ending in a carriage return that is NOT part of the line terminator ("\r\r\n"): the name keeps it (D25)
     for _ in range(10 if ck.tier == "quick" else 150):
         items = [(1, b"r%d" % r) for r in range(rng.randint(2, 5))]
@@ -210,14 +237,14 @@ def run(ck, rng):
         if kind == "long":
             # the splitter's error must be reported whether the error readers are already waiting or not
             seed = rng.choice(["dherr.start:3000", "dherr.reader:3000", "dsplit.err:3000", 0, rng.randint(1, 10 ** 6)])
-        mcases.append("mscn %s %d - - - - %s %s %s %s %s %s %s" % (entry, procs, seed, rng.choice("01"), snap_arg(pre), exts_plus(exts), hx(b"tgt"), strict, hx(doc)))
+        mcases.append("mscn %s %d - - - - %s %s %s %s %s %s %s" % (entry, procs if kind != "huge" else rng.choice([4, 16]), seed, "2" if kind == "huge" else rng.choice("01"), snap_arg(pre), exts_plus(exts), hx(b"tgt"), strict, hx(doc)))
         scases.append(simple_case(entry, doc, exts, pre, strict))
     mres, _ = run_impl(exe, mcases, per_case_timeout=40.0)
     sres, _ = run_impl(exe, scases)
     # per-root reference blocks (simple mode on each root's own sub-document)
     bcases, bref = [], []
     for si, (entry, doc, items, exts, pre, strict, tag, kind) in enumerate(scen):
-        if entry in ("out-d", "out-dry") and kind == "ok" and len(items) < 400:
+        if entry in ("out-d", "out-dry") and (kind == "ok" and len(items) < 400 or kind == "huge"):
             for blk in split_roots(items):
                 bcases.append(simple_case(entry, spell(blk, plain_spelling(blk)), exts, pre, strict))
                 bref.append(si)
